@@ -78,6 +78,10 @@ fn gen_case(rng: &mut Rng) -> Gen {
     spec.layout_seed = rng.next_u64();
     spec.raw_share = *rng.pick(&[0u64, 0, 2, 8]);
     spec.keep_bigger_share = *rng.pick(&[0u64, 4, 8]);
+    // placed after every other draw so that the remaining parameters of a case stay as
+    // they were before this option existed
+    let no_dedup_draw = rng.clone().fork(0xd3d0).chance(1, 5);
+    spec.no_dedup = no_dedup_draw;
     if rng.chance(1, 3) {
         let n = rng.urange(1, 4);
         for i in 0..n {
